@@ -1170,6 +1170,9 @@ class Exec:
         """anything iterable in order -> IterV"""
         if isinstance(x, IterV): return x
         x = self.val(x)
+        if isinstance(x.ty, TOpt):
+            if not self.spec and self.branch(x.t[0], exceptional=True): self.raise_exc('TypeError')
+            x = x.t[1]
         ty = x.ty
         if isinstance(ty, TSeq): return IterV(x.t[0], lambda i: seq_get(x, i), ty.elem)
         if isinstance(ty, TRef) and ty.universal:
@@ -1559,7 +1562,9 @@ class Exec:
             res = havoc(self.w.ty(rty), 'ret_' + f.key.replace('.', '_'), facts)
             for fct in facts: self.assume(fct)
             env2 = dict(env); env2['result'] = res
-            for e in c.get('ensures', []): self.assume(self.eval_spec(e, env=env2, old=pre))
+            ens = c.get('ensures', [])
+            if c.get('ensures_seq'): ens = list(ens) + list(c['ensures_seq'][min(ordinal, len(c['ensures_seq']) - 1)])     # per call ordinal
+            for e in ens: self.assume(self.eval_spec(e, env=env2, old=pre))
             return res
         for fct in facts: self.assume(fct)
         ecls = outcomes[k]
